@@ -26,7 +26,7 @@ func init() {
 		ID: "C07", Level: "fault_enumeration", Primary: "fault_placements", EvalCount: "faults_injected",
 		Rule: "faults = handler panic (the panic value cycles through string, error, int, struct, pointer, byte slice and two runtime errors) in every operation kind (concurrently dispatched bind/search/modify/add/delete/extended; inline StartTLS; inline unbind; default route), each alone, after earlier requests, and " +
 			"while sibling handlers of the same connection are still running; connection reset mid-frame; truncated frame + FIN; malformed / undecodable frames (incl. inputs that used to panic the decoder); a client that stops " +
-			"reading a large response and resets (failed write) or is held; storms of hundreds of recovered panics; 24 clients whose connections fail at the same moment, 25 times over; a StartTLS upgrade while an earlier request of the connection is still in its handler; the structural mutations (children dropped/doubled/swapped/truncated, tag/class/length corruptions) of the canonical requests; established ldaps sessions that vanish (reset, mid-frame reset, bare FIN, reset with a request unanswered); TLS handshakes stalled and held on a TLS listener; the panic faults again on a server whose logger is switched off; descriptor exhaustion at accept (RLIMIT_NOFILE lowered until accept4 returns EMFILE); 300 (thorough 3000) abruptly ended connections in a row under a descriptor limit with room for 40; a phase in which the client whose request made a handler panic stays connected and silent (loggers of hclog's text format and of the JSON format, at trace/debug/info/error/off): a connection opened before and one opened after the fault must be served while it stays. Each fault is placed within continuous verified traffic on bystander " +
+			"reading a large response and resets (failed write) or is held; storms of hundreds of recovered panics; 24 clients whose connections fail at the same moment, 25 times over; a StartTLS upgrade while an earlier request of the connection is still in its handler; the structural mutations (children dropped/doubled/swapped/truncated, tag/class/length corruptions) of the canonical requests; established ldaps sessions that vanish (reset, mid-frame reset, bare FIN, reset with a request unanswered); TLS handshakes stalled and held on a TLS listener; the panic faults again on a server whose logger is switched off; descriptor exhaustion at accept (RLIMIT_NOFILE lowered until accept4 returns EMFILE; on a plain server and on one with a write timeout); 300 (thorough 3000) abruptly ended connections in a row under a descriptor limit with room for 40; a phase in which the client whose request made a handler panic stays connected and silent (loggers of hclog's text format and of the JSON format, at trace/debug/info/error/off): a connection opened before and one opened after the fault must be served while it stays. Each fault is placed within continuous verified traffic on bystander " +
 			"connections and followed by a fresh-connection probe. distinct_nontrivial = distinct (fault kind, placement) pairs injected while at least one bystander operation overlapped or followed",
 		Assume: []string{"the server runs in a child process; its death, or Run returning while not stopped, is observed by the supervisor / the harness",
 			"the faulted connection itself may die; only bystanders, new connections and the process are asserted"},
@@ -37,7 +37,7 @@ func init() {
 				{Name: "faults-silent-logger", Run: func(c *Ctx) { c07Silent = true; c07Faults(c) }, Crash: c07Crash},
 				{Name: "panic-then-silent", Run: c07PanicThenSilent}}
 		},
-		MinObserved: []string{"faults_injected", "bystanders_served_while_the_faulty_client_stays_connected_and_silent", "bystander_ops_verified", "bystander_ops_overlapping_or_after_a_fault", "new_connection_probes", "emfile_accept_failures_provoked", "probes_served_while_a_handshake_is_stalled", "mutated_frames_fed", "handler_panics_with_a_value_that_is_neither_string_nor_error", "abruptly_ended_connections_under_a_tight_descriptor_limit", "connections_upgraded_while_a_request_was_in_flight", "panic_faults_injected_on_a_server_whose_logger_is_off", "connections_failing_at_the_same_moment"},
+		MinObserved: []string{"faults_injected", "descriptor_shortage_episodes_on_a_server_with_a_write_timeout", "bystanders_served_while_the_faulty_client_stays_connected_and_silent", "bystander_ops_verified", "bystander_ops_overlapping_or_after_a_fault", "new_connection_probes", "emfile_accept_failures_provoked", "probes_served_while_a_handshake_is_stalled", "mutated_frames_fed", "handler_panics_with_a_value_that_is_neither_string_nor_error", "abruptly_ended_connections_under_a_tight_descriptor_limit", "connections_upgraded_while_a_request_was_in_flight", "panic_faults_injected_on_a_server_whose_logger_is_off", "connections_failing_at_the_same_moment"},
 	})
 }
 
@@ -197,6 +197,9 @@ func c07Server() (*Srv, *sync.WaitGroup, error) {
 	}
 	if c07LogLevel != hclog.NoLevel {
 		scfg.LogLevel, scfg.LogText = c07LogLevel, c07LogText
+	}
+	if c07WriteTimeout != 0 {
+		scfg.WriteTimeout = c07WriteTimeout
 	}
 	srv, err := startSrv(scfg, func(m *gldap.Mux) {
 		m.Bind(func(w *gldap.ResponseWriter, r *gldap.Request) {
@@ -927,8 +930,21 @@ func c07TLSStalled(c *Ctx) {
 }
 
 // c07Emfile provokes descriptor exhaustion at accept time.
+// c07Emfile runs the descriptor-shortage episodes on a server as it comes and once more on a server that bounds its writes.
 func c07Emfile(c *Ctx) {
+	c07EmfileWith(c, 0)
+	c07EmfileWith(c, 30*time.Second)
+}
+
+var c07WriteTimeout time.Duration
+
+func c07EmfileWith(c *Ctx, wt time.Duration) {
+	c07WriteTimeout = wt
 	srv, _, err := c07Server()
+	c07WriteTimeout = 0
+	if wt != 0 {
+		c.Count("descriptor_shortage_episodes_on_a_server_with_a_write_timeout", 1)
+	}
 	if err != nil {
 		c.Inconclusive("server start: " + err.Error())
 		return
